@@ -204,9 +204,24 @@ type Reply struct {
 // Rec implements protocol.Responder by recording.
 type Rec struct {
 	Log []Reply
+	// fault injection: the PanicAt-th responder call (0-based) panics, or fails with FailErr
+	// (a write error towards the client); -1 / zero value with HasFault false = none
+	HasFault bool
+	PanicAt  int
+	FailErr  error
 }
 
-func (r *Rec) add(x Reply) error { r.Log = append(r.Log, x); return nil }
+func (r *Rec) add(x Reply) error {
+	if r.HasFault && len(r.Log) == r.PanicAt {
+		r.Log = append(r.Log, x)
+		if r.FailErr != nil {
+			return r.FailErr
+		}
+		panic("model: injected panic in responder " + x.Kind)
+	}
+	r.Log = append(r.Log, x)
+	return nil
+}
 
 func (r *Rec) Set(opaque uint32, quiet bool) error     { return r.add(Reply{Kind: "set", Opaque: opaque, Quiet: quiet}) }
 func (r *Rec) Add(opaque uint32, quiet bool) error     { return r.add(Reply{Kind: "add", Opaque: opaque, Quiet: quiet}) }
